@@ -29,7 +29,8 @@ RULE = (
     "serialization: every model-built value x {no_copy} x {check_type} x {function, precomputed method} x all 32 "
     "PassThroughOptions flag vectors (+ a `types` set / predicate): equal to the reference output once passed-through "
     "leaves are completed by json.dumps(default=serialization_default()). Discriminated unions (C13's world) under "
-    "the deserialization option vectors. distinct_nontrivial counts distinct "
+    "the deserialization option vectors; converters handing out containers of the value (registered / field / dynamic) "
+    "under no_copy. distinct_nontrivial counts distinct "
     "(ctor-pair shape, option vector, verdict / value index) tuples."
 )
 
@@ -372,8 +373,68 @@ def run_discriminated(st):
         sys.modules.pop(mod.__name__, None)
 
 
+CONV_SRC = '''
+class Bag:
+    def __init__(self, items): self.items = items
+@serializer
+def bag_items(b: Bag) -> List[int]: return b.items          # hands out a container the value holds
+@dataclass
+class Table:
+    rows: Dict[str, List[int]] = field(default_factory=dict)
+def table_rows(t: Table) -> Dict[str, List[int]]: return t.rows
+@dataclass
+class HasTable:
+    t: Table = field(default_factory=Table, metadata=conversion(serialization=table_rows))
+'''
+
+
+def run_serialization_conversions(st):
+    """converters handing out containers held by the value (registered serializer, field conversion, dynamic conversion): with
+    no_copy=False the result shares none of them with the value, whatever the route; equal results under every vector"""
+    from ..realize import PRELUDE, exec_source
+
+    mod = exec_source(PRELUDE + CONV_SRC)
+    cases = [
+        ("registered", mod.Bag, lambda: mod.Bag([1, 2]), {}),
+        ("registered_in_list", List[mod.Bag], lambda: [mod.Bag([1]), mod.Bag([2, 3])], {}),
+        ("field_conversion", mod.HasTable, lambda: mod.HasTable(mod.Table({"a": [1], "b": [2, 3]})), {}),
+        ("dynamic", mod.Table, lambda: mod.Table({"a": [1]}), {"conversion": mod.table_rows}),
+    ]
+    for name, tp, mk, extra in cases:
+        ref = apischema.serialize(tp, mk(), **extra)
+        for nc in (True, False):
+            for route in ("method", "function"):
+                v = mk()
+                before = set()
+                containers(v.__dict__ if hasattr(v, "__dict__") else v, before)
+                if isinstance(v, list):
+                    for x in v:
+                        containers(x.__dict__, before)
+                out = apischema.serialization_method(tp, no_copy=nc, **extra)(v) if route == "method" else apischema.serialize(tp, v, no_copy=nc, **extra)
+                st.case("ser_conversion", name, nc, route)
+                if out != ref:
+                    st.violation({"label": "conv:" + name, "options": [nc, route], "signature": {"kind": "ser_option_changes_result", "option": f"no_copy={nc}", "shape": "conv:" + name}, "what": f"{name}: serialize with no_copy={nc} via {route} gives {out!r}, default gives {ref!r}"})
+                if not nc:
+                    got = set()
+                    containers(out, got)
+                    if before & got:
+                        st.violation({"label": "conv:" + name, "options": [nc, route], "signature": {"kind": "aliasing_with_no_copy_false", "shape": "conv:" + name, "side": "serialization"}, "what": f"{name}: with no_copy=False the serialized result shares a mutable container with the value (via {route}): {out!r}"})
+    import sys
+
+    sys.modules.pop(mod.__name__, None)
+    apischema.cache.reset()
+
+
 def work(tier, widx, nworkers, st, extra):
     import os
+
+    if widx == (1 % nworkers) and os.environ.get("VERIF_ONLY") in (None, "", "disc", "conv"):
+        try:
+            run_serialization_conversions(st)
+        except Exception:
+            import traceback
+
+            st.violation({"signature": {"kind": "harness_error"}, "harness_error": True, "what": "serialization conversions", "traceback": traceback.format_exc()[-2000:]})
 
     if widx == 0 and os.environ.get("VERIF_ONLY") in (None, "", "disc"):
         try:
